@@ -64,6 +64,12 @@ class Gen:
                 self.pop_by_label[(e["model"], e["ch"], e["label"])] = mcv
         self.next_task = 1
         self.next_type = 1
+        # task and task type ids: unique over the whole trace, or (every other system, decided by its
+        # shape, not by a draw) counted per process and model from 1 - the ids of an SPMD code are the same
+        # numbers in every process, and nOS-V and Nanos6 number their tasks independently
+        nthreads = sum(len(p["threads"]) for l in desc["looms"] for p in l["procs"])
+        self.local_ids = (nthreads + desc["looms"][0]["procs"][0]["pid"]) % 2 == 0
+        self._local = {}
         self.nrejected = 0
         self.w = dict(state=2, aff=2, model=10, mark=2, task=4, misc=1, kernel=1)
         if weights:
@@ -230,6 +236,9 @@ class Gen:
         x = r.random()
         if not info.types or x < (0.2 if len(info.types) < 3 else 0.05):
             tid = self.next_type; self.next_type += 1
+            if self.local_ids:
+                ck = (th.key[0], th.key[1], mc, "type")
+                tid = self._local[ck] = self._local.get(ck, 0) + 1
             # half of the labels are the same strings in every process (SPMD codes
             # register the same task types), the others are private to this type
             label = r.choice(["", "main", "work", "io", "t%d" % tid, "type with spaces %d" % tid, "t%d" % tid, "x" * 30 + str(tid)]
@@ -237,6 +246,9 @@ class Gen:
             return (th.key, mc + "Yc", obs.u32(tid) + label.encode() + b"\0", True)
         if not info.tasks or x < 0.25:
             task = self.next_task; self.next_task += 1
+            if self.local_ids:
+                ck = (th.key[0], th.key[1], mc, "task")
+                task = self._local[ck] = self._local.get(ck, 0) + 1
             ty = r.choice(sorted(info.types))
             v = "c" if (mc == "6" or r.random() < 0.75) else "C"
             return (th.key, mc + "T" + v, obs.u32(task, ty))
